@@ -76,3 +76,75 @@ contract("_ResourceOperations.create", source=C + "_ResourceOperations.create", 
          ensures=["fsops == old(fsops) + [(ite(is_folder_p(resource), 'create_folder', 'create_file'), abs_path(self.project, resource._path), '')]"] + TOLD("created"),
          loops={1: {"index": "i", "inv": ["fsops == old(fsops) + [(ite(is_folder_p(resource), 'create_folder', 'create_file'), abs_path(self.project, resource._path), '')]"]
                                           + TOLD_INV("created")}})
+
+# ---- CPython cross-check of move / remove on a real _ResourceOperations with recording commands and observers ---------------------------------
+class _XcCmds:
+    def __init__(self, log, direct, is_direct, fail):
+        self._log, self._direct, self._is_direct, self._fail = log, direct, is_direct, fail
+
+    def _op(self, *entry):
+        if self._fail:
+            raise OSError("injected")
+        self._log.append(tuple(entry))
+        self._direct.append(self._is_direct)
+
+    def move(self, path, new_location):
+        self._op("move", path, new_location)
+
+    def remove(self, path):
+        self._op("remove", path, "")
+
+
+class _XcObserver:
+    def __init__(self, told):
+        self._told = told
+
+    def resource_moved(self, resource, new_resource):
+        self._told.append(("moved", resource))
+
+    def resource_removed(self, resource):
+        self._told.append(("removed", resource))
+
+
+class _XcRes:
+    def __init__(self, path, ignored):
+        self.real_path, self._path, self.path, self.ignored = "/root/" + path, path, path, ignored
+
+
+class _XcProj:
+    def __init__(self, observers):
+        self.observers = observers
+
+    def is_ignored(self, resource):
+        return resource.ignored
+
+
+def _xc_ops_domain(tier, seed):
+    for op in ("move", "remove"):
+        for n_obs in (0, 1, 3):
+            for ignored in (False, True):
+                for fail in (False, True):
+                    yield (op, n_obs, ignored, fail)
+
+
+def _xc_ops_build(case):
+    from rope.base import change
+    op, n_obs, ignored, fail = case
+    fsops, via_direct, told = [("create_file", "/old", "")], [False], [("created", None)]
+    ops = object.__new__(change._ResourceOperations)
+    ops.project = _XcProj([_XcObserver(told) for _ in range(n_obs)])
+    ops.fscommands = _XcCmds(fsops, via_direct, False, fail)
+    ops.direct_commands = _XcCmds(fsops, via_direct, True, fail)
+    d = {"self": ops, "resource": _XcRes("a.py", ignored), "fsops": fsops, "via_direct": via_direct, "told": told}
+    if op == "move":
+        d["new_resource"] = _XcRes("b.py", False)
+    return d
+
+
+_XC_OPS_ENV = {"ignored": lambda p, r: p.is_ignored(r), "is_direct": lambda c: c._is_direct}
+bounded_check(name="c09-operations-move-native", props=["C09", "C13"], contract="_ResourceOperations.move", build=_xc_ops_build,
+              domain=lambda t, s: [c for c in _xc_ops_domain(t, s) if c[0] == "move"], exhaustive=True, env=_XC_OPS_ENV,
+              label="CPython cross-check: _ResourceOperations.move's contract with recording commands/observers: 0/1/3 observers x ignored x injected OSError")
+bounded_check(name="c09-operations-remove-native", props=["C09", "C13"], contract="_ResourceOperations.remove", build=_xc_ops_build,
+              domain=lambda t, s: [c for c in _xc_ops_domain(t, s) if c[0] == "remove"], exhaustive=True, env=_XC_OPS_ENV,
+              label="CPython cross-check: _ResourceOperations.remove's contract on the same domain")
